@@ -4,7 +4,7 @@
    // and % are floor division / modulo. *)
 From Coq Require Import ZArith String Ascii List Bool Lia.
 Import ListNotations.
-Open Scope Z_scope.
+Local Open Scope Z_scope.
 
 Notation "'let*' x := e 'in' k" :=
   (match e with Some x => k | None => None end)
